@@ -442,6 +442,7 @@ def run(ctx: Ctx) -> None:
     ctx.call(scan_coverage_rule, "7t")
     ctx.call(pull_guards_rule, "9g")
     ctx.call(T.t_g5, "10/T.G5")
+    ctx.call(T.t_g5u, "10u/T.G5u")
     # a state a dependant still needs is removed only by the clean decision: its table (incl. which nodes count as reversible at all) and
     # the run policies that the update tool substitutes for the default one (they must keep the scope-aware `is_finished`)
     ctx.call(N.clean_decision_table, "14", True)
@@ -486,7 +487,7 @@ MUTANTS = [
     ("scan-when-finished", NODE, "should_run_from_scan = self.scan_states() if should_scan else False", "should_run_from_scan = self.scan_states()", "6"),
     ("rerun-not-disabled", NODE, "if len(self.shared_filtered_results) == 0 and not should_run_from_scan:", "if len(self.shared_filtered_results) == 0 and should_run_from_scan:", "6"),
     ("location-from-all-workers", NODE, "for net_suffix in node.shared_result_worker_ids:", "for net_suffix in [w.id for s in TestSwarm.run_swarms.values() for w in s.workers]:", "9"),
-    ("reverse-without-unexplored-guard", G, "if not next.is_flat() and len(unexplored_nodes) > 0:", "if not next.is_flat() and len(unexplored_nodes) > 1:", "10/T.G5"),
+    ("reverse-without-unexplored-guard", G, "if not next.is_flat() and len(unexplored_nodes + unrolling_nodes) > 0:", "if not next.is_flat() and len(unexplored_nodes + unrolling_nodes) > 1:", "10/T.G5"),
     # preservers
     ("P-hoist-ready", G, "                if next.is_setup_ready(worker):\n                    await self.traverse_node(next, worker, params)",
      "                ready = next.is_setup_ready(worker)\n                if ready:\n                    await self.traverse_node(next, worker, params)", None),
